@@ -44,7 +44,9 @@ func Run(jobPath, out string) {
 			defer wg.Done()
 			switch jobs[i].Mode {
 			case "layer":
-				res[i] = RunLayer(jobs[i].P, jobs[i].Acts)
+				res[i] = RunLayer(jobs[i].P, jobs[i].Acts, false)
+			case "layerc":
+				res[i] = RunLayer(jobs[i].P, jobs[i].Acts, true)
 			case "udp":
 				res[i] = RunUDP(jobs[i].P, jobs[i].Acts)
 			default:
